@@ -12,7 +12,7 @@ CHECKS = {
    text="Universal theorems (all mantissas, exponents, precisions, modes) on the Gallina model of libmpf that every modelled operation returns a canonical tuple and that canonical tuples are unique per value; the model is tied to /repo by running the extracted model against the live code on boundary-directed cases, and every tuple any call returns (raw, operators, ~150 public functions, interval endpoints) is checked canonical.",
    note=TB_A + " Not proved: canonicity of values produced by routines outside the model (observed by the sweep only)."),
  "C02": dict(level="proof", engine="A", technique="Coq/Flocq proof that normalize = round radix2 (FLX_exp p) in all five modes, lifted to from_int/from_man_exp/pos/neg/abs/mul; correspondence of add/sub/div/sqrt/mul_int/rdiv_int/from_rational/fsum and public operators against the extracted model and an exact-rational oracle",
-   text="normalize/normalize1 are proved to return exactly Flocq's FLX rounding of the exact value for every input, precision and mode; conversions, unary ops and multiplication are corollaries. Addition/subtraction (including the far-apart-exponent shortcut), division, square root, from_rational and fsum (one exact integer accumulation and a single rounding, for lists of any length whose exponents lie within the 2*prec-bit window the routine keeps exact) have their own theorems (sticky-bit lemma); the public operator/keyword glue is covered by the model correspondence plus an exact-rational correct-rounding oracle on directed cases.",
+   text="normalize/normalize1 are proved to return exactly Flocq's FLX rounding of the exact value for every input, precision and mode; conversions, unary ops and multiplication are corollaries. Addition/subtraction (including the far-apart-exponent shortcut), division, square root, from_rational and fsum (one exact integer accumulation and a single rounding, for lists of any length whose exponents lie within the 2*prec-bit window the routine keeps exact) have their own theorems (sticky-bit lemma); the public operator/keyword glue is covered by the model correspondence plus an exact-rational correct-rounding oracle on directed cases. The integer square roots behind mpf_sqrt (libintmath, pure-Python backend) are modelled step by step (Algo/Isqrt.v) with their floating-point seeds as inputs taken from the live source (the function AST is cut before its integer loop and the prefix compiled in the module namespace): the division Newton loop of isqrt_small_python is proved to return Z.sqrt x from every start value >= the root within log2(r0)+3 rounds, and the correction loops of sqrtrem_python to return (Z.sqrt x, x - (Z.sqrt x)^2) from every approximation >= root - 1; both hypotheses are monitored on every sampled call; isqrt_fast_python (division-free Newton) is modelled and in correspondence, its error bound is not proved.",
    note=TB_A),
  "C10": dict(level="proof", engine="A", technique="Coq proof bc(result) <= prec for normalize/normalize1/from_man_exp/pos/mul (pure Z) and, through the rounding theorems, add/sub/div/sqrt/mod/pow_int and complex add/sub/mul/div; correspondence; bit-length monitor over public entry points with over-long arguments",
    text="Every rounded return path of the model ends in normalize/normalize1/from_man_exp, which are proved to return at most prec bits for every input; the model is tied to the code by correspondence, and a monitor feeds arguments with more bits than the precision to ~150 public entry points.",
@@ -35,16 +35,16 @@ CHECKS.update({
    text="Comparison and hash routines are transliterated and tied by correspondence on same-top-bit, tiny-difference, cross-sign and special pairs; at API level every comparison across mpf/int/float/mpc/complex is decided against exact rationals and equal values are required to have equal hash(). Theorems in Props/C05.v: for all finite canonical operands mpf_cmp is the sign of the exact difference and mpf_lt/le/gt/ge hold exactly when the real-number relation holds (so the order inherits totality, antisymmetry and transitivity from the reals); nan is unordered. The hash theorems derive from 2^61 = 1 (mod 2^61-1) that mpf_hash follows the interpreter's rule hash(m/2^k) = m*(2^k)^-1 mod P for every finite value, hence equal numbers hash equally across int, mpf and real-valued mpc.",
    note=TB_A + " CPython's numeric hash is the reference (validated against the running interpreter on every run)."),
  "C06": dict(level="proof", engine="A", technique="Coq theorems (Props/C06.v): to_int/floor/ceil/nint/frac against Zfloor/Zceil/ZnearestE, mpf_mod against x - y*floor(x/y); Gallina model of round_int/to_int/mpf_round_int/floor/ceil/nint/frac/mpf_mod (+complex) in correspondence; exact definitions decided with rationals",
-   text="Integer-part functions and modulo are transliterated; the model is tied by correspondence and each case is decided against the mathematical definition (floor, ceil, ties-to-even nint, frac in [0,1), sign and magnitude of x mod y) with correct rounding at the working precision. Theorems in Props/C06.v: the integer-part functions return Flocq's Zfloor/Zceil/ZnearestE of the value (rounded to prec), frac = x - floor x; mpf_mod returns the Flocq rounding of x - y*floor(x/y) for every finite x and non-zero finite y (both shortcut branches included), and that remainder has the sign of the divisor and smaller magnitude.",
+   text="Integer-part functions and modulo are transliterated; the model is tied by correspondence and each case is decided against the mathematical definition (floor, ceil, ties-to-even nint, frac in [0,1), sign and magnitude of x mod y) with correct rounding at the working precision. Theorems in Props/C06.v: the integer-part functions return Flocq's Zfloor/Zceil/ZnearestE of the value (rounded to prec), frac = x - floor x; mpf_mod returns the Flocq rounding of x - y*floor(x/y) for every finite x and non-zero finite y (both shortcut branches included), and that remainder has the sign of the divisor and smaller magnitude. to_fixed is proved to be floor(x*2^prec) for every integer prec and to_rational to be exact.",
    note=TB_A + " Complex floor/ceil/nint/frac and special values are decided by correspondence + exact oracle."),
  "C09": dict(level="proof", engine="A", technique="Coq/Flocq theorems (Props/C09.v): from_float exact for |m53| < 2^53 and prec >= 53, correctly rounded below; to_float hands ldexp the 53-bit Flocq rounding; Gallina model of from_float/to_float on frexp parts in correspondence; exactness / correct rounding decided with rationals on doubles chosen by 64-bit pattern",
    text="from_float is from_man_exp of the frexp parts (exact by the from_man_exp theorem); to_float is normalize1 to 53 bits (correct rounding theorem) followed by an exact ldexp in the normal range. The model is tied by correspondence over all exponent fields, subnormals, binade edges and halfway points. Theorems in Props/C09.v hold for every frexp mantissa/exponent pair and every regular mpf.",
    note=TB_A + " math.frexp/ldexp trusted."),
- "C14": dict(level="proof", engine="A", technique="Coq/Flocq theorems (Props/C14.v): containment for mpi add/sub/neg/pos on all member reals; Gallina model of libmpi (add/sub/mul/div/neg/abs/square/sqrt/pow_int) in correspondence; containment decided exactly at sampled member points; iv conversions and operators at API level",
-   text="Interval arithmetic is transliterated branch for branch (all sign cases, zero and infinite endpoints); floor/ceiling endpoint roundings are instances of the normalize theorems; the model is tied by correspondence and containment of exact results is decided exactly for member points of every generated interval, including endpoints longer than the precision and string/number conversions. Theorems in Props/C14.v: for finite canonical endpoints of any length and every pair of member reals, x+y, x-y, -x, +x, x*y (all nine sign cases incl. the min/max of exact corner products), x*x, |x|, x/y (denominator interval not containing 0), sqrt x, x^n (n > 0, all sign/parity cases, built on the directed mpf_pow_int theorems of C03) and 1/x^n (when the enclosure of x^n excludes zero) lie in the computed interval, which is again a valid interval. Elementary functions on intervals are decided per sampled interval by universally quantified Coq Interval certificates (props/c14e.py, exploration level for that part).",
+ "C14": dict(level="proof", engine="A", technique="Coq/Flocq theorems (Props/C14.v): containment for mpi add/sub/neg/pos/mul/square/abs/div/sqrt/pow_int on all member reals, and for exp/log/cos/sin/tan/cot/cosh/sinh/general power given 512-ulp-accurate point values (monitored hypothesis); Gallina model of libmpi (add/sub/mul/div/neg/abs/square/sqrt/pow_int, _mpi_outward, exp, log, cos_sin, tan, cot, cosh_sinh, pow) in correspondence; containment decided exactly at sampled member points; iv conversions and operators at API level",
+   text="Interval arithmetic is transliterated branch for branch (all sign cases, zero and infinite endpoints); floor/ceiling endpoint roundings are instances of the normalize theorems; the model is tied by correspondence and containment of exact results is decided exactly for member points of every generated interval, including endpoints longer than the precision and string/number conversions. Theorems in Props/C14.v: for finite canonical endpoints of any length and every pair of member reals, x+y, x-y, -x, +x, x*y (all nine sign cases incl. the min/max of exact corner products), x*x, |x|, x/y (denominator interval not containing 0), sqrt x, x^n (n > 0, all sign/parity cases, built on the directed mpf_pow_int theorems of C03) and 1/x^n (when the enclosure of x^n excludes zero) lie in the computed interval, which is again a valid interval. exp, log, cos, sin, tan, cot, cosh/sinh and the general power exp(t ln s) on intervals: the point functions mpf_exp/mpf_log/mpf_cos_sin/mod_pi2 are not modelled, their values at the end points (recorded from the live call) are inputs of the model functions mpi_exp_from, mpi_log_from, mpi_cos_sin_from, mpi_tan_from, mpi_cot_from, mpi_cosh_sinh_from, mpi_pow_from, which are in correspondence with the live mpi_* functions; the theorems prove containment of exp x, ln x, cos x, sin x, tan x, cos x/sin x, cosh x, sinh x, x^y for every member point under the hypotheses `close` (each point value within a relative 2^(9-wp) of the exact one) and `quad` (the quadrant index is right) - including the whole extremum logic of mpi_cos_sin (quasi-convexity of cos on a period, proved from the standard library's monotonicity lemmas), the min/max selection, the outward factor and the clamp to [-1, 1]; both hypotheses are monitored on every sampled call against a (wp+120)-bit evaluation and a failure is reported as a violation with the input. Independently, elementary functions on intervals are decided per sampled interval by universally quantified Coq Interval certificates (props/c14e.py, exploration level for that part).",
    note=TB_A + " Infinite endpoints, division by intervals containing zero: correspondence + exact oracle (no theorem). Elementary part: Coq Interval certificates per instance (" + "Interval/Coquelicot axioms as for engine B). Gamma family on intervals not decided."),
  "C15": dict(level="proof", engine="A", technique="Coq/Flocq theorems (Props/C15.v): mpci add/sub/neg/pos/mul/square/div/pow_int (n>0) contain every exact complex result for all member points; Gallina model of mpci add/sub/mul/div/square/pow_int in correspondence; containment decided exactly at 16x9 member points per case; point-wise Interval certificates for abs/exp/log/cos/sin on rectangles",
-   text="Complex interval arithmetic is a composition of the real interval model: theorems in Props/C15.v prove, for finite rectangles, every precision and every member point a+bi, c+di, that the sum, difference, negation, product (ac-bd, ad+bc), square, quotient (when the enclosure of |w|^2 excludes zero) and positive integer powers (loop invariant by induction on the exponent bits) lie in the computed rectangle (compositions of the C14 containment theorems with exact inner products). The model is tied by correspondence; division and powers are decided exactly at member points; abs/exp/log/cos/sin on rectangles are decided point-wise by Coq Interval certificates (a necessary condition only; exploration level for that part).",
+   text="Complex interval arithmetic is a composition of the real interval model: theorems in Props/C15.v prove, for finite rectangles, every precision and every member point a+bi, c+di, that the sum, difference, negation, product (ac-bd, ad+bc), square, quotient (when the enclosure of |w|^2 excludes zero) and positive integer powers (loop invariant by induction on the exponent bits) lie in the computed rectangle (compositions of the C14 containment theorems with exact inner products). The model is tied by correspondence; division and powers are decided exactly at member points. mpci_abs contains |z| (theorem without any hypothesis on point functions: exact squares, a sum rounded down that stays non-negative, the square-root theorem); mpci_exp, mpci_cos, mpci_sin contain exp a cos b + i exp a sin b, cos a cosh b - i sin a sinh b, sin a cosh b + i cos a sinh b for every member point, by composition of the C14 theorems under the same monitored hypotheses on the recorded point values (models mpci_exp_from, mpci_cos_from, mpci_sin_from in correspondence with the live functions). Independently abs/exp/log/cos/sin on rectangles are decided point-wise by Coq Interval certificates (a necessary condition only; exploration level for that part).",
    note=TB_A + " Negative powers and complex exponents: correspondence + exact oracle (no theorem). Elementary part: per-point Interval certificates. Gamma family on rectangles: necessary condition at integer member points only."),
  "C16": dict(level="proof", engine="A", technique="Coq theorems (Props/C16.v): three-valued interval comparisons are exactly the for-all / for-none statements over member reals; Gallina model of mpi_lt/le/gt/ge/eq in correspondence; three-valued semantics decided exactly from endpoints",
    text="The three-valued comparison functions are transliterated; since an interval relation holds for all/no member pairs iff it holds for the corresponding endpoints, each case is decided exactly; `in`, == and != at API level on touching, nested, infinite and point intervals. Theorems in Props/C16.v prove for finite endpoints that True means the relation holds for every pair of members, False for none, None otherwise.",
@@ -94,7 +94,7 @@ CHECKS.update({
 
 CHECKS.update({
  "C08": dict(level="proof", engine="A", technique="Gallina model of to_digits_exp/to_str on digit lists and of repr_dps in correspondence (all formatting options); Coq sweep 10^(repr_dps p -1) > 2^p for p<=3000 (found and fixed a defect at p=54); exact-digit theorem for bc<=bitprec; exact nearest-decimal and round-trip oracles",
-   text="Printing is modelled character for character (rounding half-up on decimal digits, carries, fixed/exponent layout, strip_zeros, specials) and tied to the code by correspondence; repr's digit count is proved sufficient for round trips for every precision up to 3000 bits; digit generation is proved exact when the mantissa fits the conversion precision. eval(repr(x))==x, parseability by float()/Decimal() and nearest-n-digit-ness are decided exactly on adversarial values (next to decimal ties, 99..9 carries, huge exponents). Nearest-ness is false when the mantissa is longer than the conversion precision: known finding keyed by that regime.",
+   text="Printing is modelled character for character (rounding half-up on decimal digits, carries, fixed/exponent layout, strip_zeros, specials) and tied to the code by correspondence; repr's digit count is proved sufficient for round trips for every precision up to 3000 bits; digit generation is proved exact when the mantissa fits the conversion precision; the decimal rounding step (keep dps of L digits, half up on the next digit, carry through nines, exponent moves on a carry out) is proved to be round-half-up of sd/10^(L-dps) on the base-10 expansion (round_digits_spec), so the printed digits are within half a unit of the last printed place plus one unit of the last place of sd of the exact x*10^fixdps (to_str_digits_near). eval(repr(x))==x, parseability by float()/Decimal() and nearest-n-digit-ness are decided exactly on adversarial values (next to decimal ties, 99..9 carries, huge exponents). Nearest-ness is false when the mantissa is longer than the conversion precision: known finding keyed by that regime.",
    note=TB_Z + " The double computations of bitprec/fixdps are inputs of the model; the |exp+bc|>3500 path is decided by the oracle only."),
 })
 
